@@ -180,4 +180,168 @@ theorem run_history {srt : Sorter} (hs : SortSpec srt) (qs : List Req) {s : Stat
       refine ⟨res :: rs, ?_, hI', SpecRun.cons hstep hrun, hu'.trans hu, hl'.trans hl⟩
       simp only [results, hres, hrs, List.map_cons]
 
+
+/-! ### an insertion sort satisfies `SortSpec` -/
+
+def insertBy (key : Nat → Bytes) (x : Nat) : List Nat → List Nat
+  | [] => [x]
+  | y :: ys => if key x < key y then x :: y :: ys else y :: insertBy key x ys
+
+def insSort : Sorter := fun key n => (List.range n).foldr (insertBy key) []
+
+theorem insertBy_perm (key : Nat → Bytes) (x : Nat) (l : List Nat) : (insertBy key x l).Perm (x :: l) := by
+  induction l with
+  | nil => exact List.Perm.refl _
+  | cons y ys ih =>
+      unfold insertBy
+      split
+      · exact List.Perm.refl _
+      · exact (List.Perm.cons y ih).trans (List.Perm.swap x y ys)
+
+theorem insertBy_sorted (key : Nat → Bytes) (x : Nat) (l : List Nat)
+    (h : l.Pairwise fun a b => ¬ key b < key a) : (insertBy key x l).Pairwise fun a b => ¬ key b < key a := by
+  induction l with
+  | nil => simp [insertBy]
+  | cons y ys ih =>
+      rw [List.pairwise_cons] at h
+      unfold insertBy
+      split
+      · rename_i hxy
+        rw [List.pairwise_cons]
+        refine ⟨?_, List.pairwise_cons.mpr h⟩
+        intro z hz
+        rcases List.mem_cons.mp hz with rfl | hz
+        · exact key_not_lt_of_lt hxy
+        · intro hzx
+          exact h.1 z hz (List.lt_trans hzx hxy)
+      · rename_i hxy
+        rw [List.pairwise_cons]
+        refine ⟨?_, ih h.2⟩
+        intro z hz
+        rcases List.mem_cons.mp ((insertBy_perm key x ys).mem_iff.mp hz) with rfl | hz
+        · exact hxy
+        · exact h.1 z hz
+
+theorem insSort_spec : SortSpec insSort := by
+  intro key n
+  unfold insSort
+  generalize List.range n = l
+  induction l with
+  | nil => exact ⟨List.Perm.refl _, List.Pairwise.nil⟩
+  | cons x xs ih =>
+      simp only [List.foldr_cons]
+      exact ⟨(insertBy_perm key x _).trans (List.Perm.cons x ih.1), insertBy_sorted key x _ ih.2⟩
+
+/-! ### the state after ReloadBCache -/
+
+/-- a freshly attached segment (zeroed) and a `.BRD` of at most MAX_BOARD complete records. -/
+def fresh (brd : List Rec) (users : List Bytes) (letters : List Nat) (dirs : List Bytes) : State :=
+  { brd := brd, tail := [], cache := List.replicate MAXB Rec.zero, bnumber := 0, sortedN := List.replicate MAXB 0,
+    sortedC := List.replicate MAXB 0, bmcache := List.replicate MAXB [0, 0, 0, 0], users := users,
+    letters := letters, dirs := dirs }
+
+theorem inv_reload {srt : Sorter} (hs : SortSpec srt) (brd : List Rec) (users : List Bytes) (letters : List Nat)
+    (dirs : List Bytes) (hlen : brd.length ≤ MAXB)
+    (hd : ∀ (i j : Nat) (ri rj : Rec), brd[i]? = some ri → brd[j]? = some rj → occupied ri = true →
+      nameKey ri.name = nameKey rj.name → i = j) :
+    Inv (reload srt (fresh brd users letters dirs)) := by
+  have hmin : min brd.length MAXB = brd.length := Nat.min_eq_left hlen
+  have htake : brd.take MAXB = brd := List.take_of_length_le hlen
+  unfold reload
+  simp only [fresh, hmin, htake, List.drop_replicate]
+  refine ⟨rfl, rfl, hlen, ?_, ?_, ?_, ?_, sortBCache_sortN hs _, sortBCache_sortC hs _, hd⟩
+  · show (clearFC brd.length (brd ++ List.replicate (MAXB - brd.length) Rec.zero)).length = MAXB
+    simp [clearFC]; omega
+  · show (List.replicate MAXB [0, 0, 0, 0]).length = MAXB
+    simp
+  · intro k r hr
+    show ∃ c, (clearFC brd.length (brd ++ List.replicate (MAXB - brd.length) Rec.zero))[k]? = some c ∧ CacheOK c r
+    have hr' : brd[k]? = some r := hr
+    have hk : k < brd.length := by
+      rcases Nat.lt_or_ge k brd.length with h' | h'
+      · exact h'
+      · rw [List.getElem?_eq_none h'] at hr'; cases hr'
+    rw [getElem?_clearFC, List.getElem?_append_left hk, hr']
+    exact ⟨_, by simp [hk]; rfl, Or.inl rfl⟩
+  · intro k hk hkm
+    show (clearFC brd.length (brd ++ List.replicate (MAXB - brd.length) Rec.zero))[k]? = some Rec.zero
+    have hk' : brd.length ≤ k := hk
+    rw [getElem?_clearFC, List.getElem?_append_right hk']
+    have : ¬ k < brd.length := by omega
+    have hkm' : k < MAXB := hkm
+    simp only [this, if_false, Option.map_id']
+    rw [List.getElem?_replicate, if_pos (by omega)]
+
+/-! ### the attribute rules -/
+
+theorem hasBit_or (a m m' : Nat) : hasBit (a ||| m) m' = (hasBit a m' || hasBit m m') := by
+  unfold hasBit
+  rw [Nat.and_or_distrib_right]
+  by_cases h1 : a &&& m' = 0
+  · rw [h1, Nat.zero_or]; simp
+  · have : (a &&& m' ||| m &&& m') ≠ 0 := fun e => h1 (Nat.or_eq_zero_iff.mp e).1
+    have e1 : ((a &&& m' ||| m &&& m') != 0) = true := by simpa using this
+    have e2 : ((a &&& m') != 0) = true := by simpa using h1
+    rw [e1, e2]; rfl
+
+/-- the attribute and level rules of `mNewbrd`, bit by bit. -/
+theorem attr_rules (q : Req) :
+    hasBit (buildAttr q) BRD_GROUP = q.isGroup ∧
+    hasBit (buildAttr q) BRD_CPLOG = !q.isGroup ∧
+    hasBit (buildAttr q) BRD_HIDE = hasBit q.attr BRD_HIDE ∧
+    restricted q = (!hasBit q.ulevel PERM_BOARD || hasBit q.attr BRD_HIDE) ∧
+    hasBit (buildAttr q) BRD_POSTMASK = (!restricted q && hasBit q.attr BRD_POSTMASK) ∧
+    buildLevel q = (if restricted q then 0 else q.level) := by
+  have hauto : Gen.NewBoard.defaultAutoCpLog = true := rfl
+  have a1G : hasBit (attr1 q) BRD_GROUP = q.isGroup := by
+    unfold attr1; simp only [hauto, if_true]
+    cases q.isGroup
+    · simp only [Bool.false_eq_true, if_false]; exact hasBit_clearBits_self _ _ (by decide)
+    · simp only [if_true]
+      rw [hasBit_clearBits_other _ _ _ (by decide), hasBit_or]
+      have : hasBit BRD_GROUP BRD_GROUP = true := by decide
+      simp [this]
+  have a1C : hasBit (attr1 q) BRD_CPLOG = !q.isGroup := by
+    unfold attr1; simp only [hauto, if_true]
+    cases q.isGroup
+    · simp only [Bool.false_eq_true, if_false]
+      rw [hasBit_clearBits_other _ _ _ (by decide), hasBit_or]
+      have : hasBit BRD_CPLOG BRD_CPLOG = true := by decide
+      simp [this]
+    · simp only [if_true]; exact hasBit_clearBits_self _ _ (by decide)
+  have a1H : hasBit (attr1 q) BRD_HIDE = hasBit q.attr BRD_HIDE := by
+    unfold attr1; simp only [hauto, if_true]
+    have h1 : hasBit BRD_CPLOG BRD_HIDE = false := by decide
+    have h2 : hasBit BRD_GROUP BRD_HIDE = false := by decide
+    cases q.isGroup
+    · simp only [Bool.false_eq_true, if_false]
+      rw [hasBit_clearBits_other _ _ _ (by decide), hasBit_or, h1, Bool.or_false]
+    · simp only [if_true]
+      rw [hasBit_clearBits_other _ _ _ (by decide), hasBit_or, hasBit_or, h1, h2, Bool.or_false, Bool.or_false]
+  have a1P : hasBit (attr1 q) BRD_POSTMASK = hasBit q.attr BRD_POSTMASK := by
+    unfold attr1; simp only [hauto, if_true]
+    have h1 : hasBit BRD_CPLOG BRD_POSTMASK = false := by decide
+    have h2 : hasBit BRD_GROUP BRD_POSTMASK = false := by decide
+    cases q.isGroup
+    · simp only [Bool.false_eq_true, if_false]
+      rw [hasBit_clearBits_other _ _ _ (by decide), hasBit_or, h1, Bool.or_false]
+    · simp only [if_true]
+      rw [hasBit_clearBits_other _ _ _ (by decide), hasBit_or, hasBit_or, h1, h2, Bool.or_false, Bool.or_false]
+  have hr : restricted q = (!hasBit q.ulevel PERM_BOARD || hasBit q.attr BRD_HIDE) := by
+    unfold restricted; rw [a1H]
+  refine ⟨?_, ?_, ?_, hr, ?_, rfl⟩
+  · unfold buildAttr; split
+    · rw [hasBit_clearBits_other _ _ _ (by decide)]; exact a1G
+    · exact a1G
+  · unfold buildAttr; split
+    · rw [hasBit_clearBits_other _ _ _ (by decide)]; exact a1C
+    · exact a1C
+  · unfold buildAttr; split
+    · rw [hasBit_clearBits_other _ _ _ (by decide)]; exact a1H
+    · exact a1H
+  · unfold buildAttr
+    cases hres : restricted q
+    · simp only [Bool.false_eq_true, if_false, Bool.not_false, Bool.true_and]; exact a1P
+    · simp only [if_true, Bool.not_true, Bool.false_and]; exact hasBit_clearBits_self _ _ (by decide)
+
 end PttVerif.C12
